@@ -89,6 +89,8 @@ theorem IsRot.dot_apply {Q : M3} (h : Q.IsRot) (u v : V3) : (Q.apply u).dot (Q.a
 
 /-- every non-zero rational quaternion gives a proper rotation with rational entries -/
 theorem ofQuat_isRot (w x y z : Rat) (h : w*w + x*x + y*y + z*z ≠ 0) : (ofQuat w x y z).IsRot := by
+  have h2 : w^2 + x^2 + y^2 + z^2 ≠ 0 := by
+    intro e; apply h; rw [← e]; ring
   constructor
   · ext <;> simp only [M3.mul, M3.apply, M3.tr, V3.dot, ofQuat, one] <;> field_simp <;> ring
   · simp only [det, ofQuat]; field_simp; ring
